@@ -7,6 +7,7 @@ import (
 	"bytes"
 	"encoding/hex"
 	"fmt"
+	"math"
 	"strconv"
 	"strings"
 	"time"
@@ -250,8 +251,14 @@ func placeholderState(l *sqlLexer) stateFn {
 		l.pos += width
 
 		if '0' <= r && r <= '9' {
-			num *= 10
-			num += int(r - '0')
+			// a number too large for an int names no argument: it stays
+			// too large instead of wrapping around to one that exists
+			if num <= (math.MaxInt-9)/10 {
+				num *= 10
+				num += int(r - '0')
+			} else {
+				num = math.MaxInt
+			}
 		} else {
 			l.parts = append(l.parts, num)
 			l.pos -= width
